@@ -161,8 +161,18 @@ def model_one(g, text, c, dec, mult):
     acc, dist, pq = {}, {}, []
     maxd = 0.0
     # seeding order is by lower-cased label; order only matters for float accumulation (all 1.0) -> immaterial
+    fcap = c.get("frontier")
+
+    def trim():
+        # the perf frontier cap keeps the `cap` strongest queued entries (heap-tuple order)
+        nonlocal pq
+        if fcap is not None and len(pq) > fcap:
+            pq = _heapq.nsmallest(fcap, pq)
+            _heapq.heapify(pq)
+
     for nid in sorted(seeds):
         _heapq.heappush(pq, (-1.0, nid, nid, 1.0))
+        trim()
         acc[nid] = acc.get(nid, 0.0) + 1.0
         dist[nid] = 0
         maxd = max(maxd, 1.0)
@@ -199,6 +209,7 @@ def model_one(g, text, c, dec, mult):
                 dist[v] = d
             if abs(acc[v]) < c["nb"]:
                 _heapq.heappush(pq, (-abs(contrib), v, v, contrib))
+                trim()
             else:
                 nbh += 1
             if c["relax"] is not None and props >= c["relax"]:
@@ -379,6 +390,11 @@ def check_case(case, sess: Session):
     perf = case.get("perf") or {}
     p1 = perf.get("t1") or {}
     perf_caps_on = bool(perf.get("enabled")) and bool((p1.get("caps") or {}).get("frontier") or (p1.get("caps") or {}).get("visited") or p1.get("dedupe_window"))
+    # the frontier cap is modelled; the visited cap and the dedupe window never engage on this tree (their containers are
+    # falsy while empty, so nothing is ever added to them) and the model treats them as absent
+    if bool(perf.get("enabled")) and int((p1.get("caps") or {}).get("frontier") or 0) > 0:
+        c["frontier"] = min(int(p1["caps"]["frontier"]), c["qb"])
+    perf_modelled = perf_caps_on
     sess.count("t1_calls")
     sess.count("hooked_heappop_events", out["pops"])
     sess.count("hooked_decay_evaluations", out["decays"])
@@ -471,7 +487,9 @@ def check_case(case, sess: Session):
                 sess.count("edited_store_repropagations_where_the_edit_changed_the_result")
 
     # ---- (3) reference model
-    if not perf_caps_on:
+    if True:
+        if perf_caps_on:
+            sess.count("model_comparisons_under_perf_caps")
         exp_ids = []
         em = dict(pops=0, iters=0, propagations=0, radius=0, layer=0, nodeb=0, maxd=0.0)
         for gid in order:
@@ -486,8 +504,6 @@ def check_case(case, sess: Session):
             sess.violation("model:touched-set", case, {"got": got, "model": exp_ids})
         elif gotm != expm:
             sess.violation("model:counters", case, {"got": gotm, "model": expm})
-    else:
-        sess.count("perf_caps_cases(invariants only)")
     nontrivial = seeds_any and tot_nodes_touched >= 2
     sess.case(case, nontrivial=nontrivial, sample={"text": text, "touched": got[:8], "metrics": {k: m[k] for k in ("pops", "iters", "propagations")}})
     if m["propagations"] > 0:
